@@ -13,16 +13,17 @@ Obligations:
   post:errors-are-never-stored      an erroneous result never reaches Cache.store                                   (C05)
 """
 from pyvc.dsl import *
-from contracts.c13_caches import SMeta, Data, ST
+from contracts.c13_caches import SMeta, Data, ST, state_wf
 
 QArg = Opaque("Any")
 Any = Opaque("Any")
 classdef("liquer.context.Vars", fields={})
 classdef("liquer.context.Context",
          fields=dict(query=Opt(Ref("Query")), raw_query=Opt(Str), status=Str, _metadata=Any, vars=Ref("Vars"), evaluated_key=Opt(Str), cwd_key=Opt(Str),
-                     enable_store_metadata=Bool, parent_query=Opt(Str), store_key=Opt(Str), store_to=Opt(Any), started=Str,
+                     enable_store_metadata=Bool, parent_query=Opt(Str), store_key=Opt(Str), store_to=Opt(Ref("TargetStore")), started=Str,
                      is_error=Bool, caching=Bool))
 CX = Ref("Context")
+classdef("TargetStore", abstract=True, fields={})       # the store an evaluation writes its result to (any store)
 
 
 @spec(params=dict(q=Ref("Query")), returns=Str, uninterpreted=True)
@@ -54,7 +55,7 @@ def _(self):
          returns=ST)
 def _(self, state, action, extra_parameters=None, cache=None):
     modifies(self.status, self.vars, self.is_error)
-    ensures(rec_has(result.metadata, "is_error"))
+    ensures(state_wf(result.metadata))
 
 
 @contract("liquer.state.State.with_data", params=dict(self=ST, data=Data), returns=ST,
@@ -69,14 +70,14 @@ def _(self, data):
 @contract("liquer.context.Context.create_initial_state", params=dict(self=CX, input_value=Opt(Data)), returns=ST, returns_fresh=True)
 def _(self, input_value=None):
     ensures(fresh_ref(result) and rec_has(result.metadata, "is_error") and not rec_get(result.metadata, "is_error"), "a-new-successful-state")
-    ensures(rec_get(result.metadata, "query") == "", "of-the-empty-query")
+    ensures(rec_get(result.metadata, "query") == "" and state_wf(result.metadata), "of-the-empty-query,with-the-standard-keys")
     ensures(implies(not isnone(input_value), result.data == unopt(input_value)), "C01:the-supplied-input-value-reaches-the-first-action")
     ensures(volatile_of(result.metadata) == (not isnone(input_value)), "C05:volatile-exactly-when-a-value-was-injected")
 
 
 @assumed("liquer.context.Context.evaluate_resource", params=dict(self=CX, resource_query=Any), returns=ST)
 def _(self, resource_query):
-    ensures(rec_has(result.metadata, "is_error"))
+    ensures(state_wf(result.metadata))
 
 
 @assumed("liquer.state.State.next_state", params=dict(self=ST), returns=ST, returns_fresh=True)
@@ -94,14 +95,14 @@ def _(self):
 
 inline("liquer.state.State.vars")
 
-OPAQUE = {"debug": NoneT, "now": Str, "set_description": NoneT, "_store_state": NoneT, "index_state": "arg1", "store_metadata": NoneT,
+OPAQUE = {"debug": NoneT, "now": Str, "set_description": NoneT, "index_state": "arg1", "store_metadata": NoneT,
           "warning": NoneT, "log_subquery": NoneT, "log_dict": NoneT, "format_exc": Str, "vars_clone": Any, "__init__": NoneT,
           "is_resource_query": Bool, "resource_query": Any, "is_empty": Bool, "is_filename": Bool, "parent_key": Opt(Str), "get": Any,
           "repr": Str, "encode": Str}
 
 
 @contract("liquer.context.Context.evaluate",
-          params=dict(self=CX, query=QArg, cache=Opt(Ref("Cache")), description=Opt(Str), store_key=Opt(Str), store_to=Opt(Any),
+          params=dict(self=CX, query=QArg, cache=Opt(Ref("Cache")), description=Opt(Str), store_key=Opt(Str), store_to=Opt(Ref("TargetStore")),
                       extra_parameters=Opt(Seq(Any)), input_value=Opt(Data), input_value_specified=Bool),
           returns=ST, opaque=OPAQUE)
 def _(self, query, cache=None, description=None, store_key=None, store_to=None, extra_parameters=None, input_value=None,
@@ -111,6 +112,8 @@ def _(self, query, cache=None, description=None, store_key=None, store_to=None, 
     c = ite(isnone(cache), g, unopt(cache))
     raises(Exception, label="evaluation-exceptions-propagate")
     modifies_any("State.metadata")
+    modifies_any("State.status")
+    modifies_any("State.context")
     modifies_all(self)
     modifies(c.cmeta, c.cdata, g.cmeta, g.cdata)
     ensures(implies(old(isnone(self.query)) and bypass, log_count("Cache.get") == 0), "lookup-bypassed-for-extra-parameters-and-input-values")
@@ -132,16 +135,19 @@ def _(self, query, cache=None, description=None, store_key=None, store_to=None, 
                     not isnone(log_arg("Context.evaluate", "cache")) and unopt(log_arg("Context.evaluate", "cache")) is unopt(cache)),
             "the-prefix-is-evaluated-with-the-same-cache")
     ensures(implies(old(isnone(self.query)) and log_count("Context.evaluate") > 0
-                    and rec_has(log_result("Context.evaluate").metadata, "is_error") and rec_get(log_result("Context.evaluate").metadata, "is_error"),
+                    and rec_has(log_result_field("Context.evaluate", "metadata"), "is_error") and rec_get(log_result_field("Context.evaluate", "metadata"), "is_error"),
                     log_count("Context.evaluate_action") == 0 and rec_has(result.metadata, "is_error") and rec_get(result.metadata, "is_error")),
             "a-failed-prefix-short-circuits:no-action-runs-and-the-result-is-an-error")
     ensures(implies(log_count("Context.evaluate_action") > 0 and rec_has(result.metadata, "is_error") and not rec_get(result.metadata, "is_error")
                     and not admissible(result.metadata) and log_count("Cache.store") == 0,
                     log_count("Cache.remove") > 0), "a-result-that-is-not-admitted-evicts-the-stale-entry")
+    ensures(implies(old(isnone(self.query)), log_count("Context._store_state") >= 1 and log_arg("Context._store_state", "state") is result),
+            "C08:every-result-served-or-computed-is-handed-to-the-store-writer")
+    ensures(state_wf(result.metadata), "the-result-is-a-state-with-the-standard-keys")
 
 
 prop("C05", fucs=["liquer.context.Context.evaluate", "liquer.context.Context.create_initial_state"])
 prop("C01", fucs=["liquer.context.Context.create_initial_state", "liquer.state.State.with_data"])
 prop("C04", fucs=["liquer.context.Context.evaluate"])
-prop("C09", fucs=["liquer.context.Context.evaluate"])
+prop("C09", fucs=["liquer.context.Context.evaluate", "liquer.context.Context.create_initial_state"])
 prop("C06", fucs=["liquer.context.Context.evaluate"])
